@@ -246,10 +246,9 @@ def validate(recs, events, math_file=None, batch=400):
     for i in range(0, len(slim), batch):
         chunk = slim[i:i + batch]
         tf = os.path.join(work, "trace%d.json" % i)
-        json.dump({"events": events, "cases": chunk}, open(tf, "w"))
+        math = json.load(open(math_file)) if math_file else {}
+        json.dump({"events": events, "cases": chunk, "math": math}, open(tf, "w"))
         env = {"TRACE_FILE": tf}
-        if math_file:
-            env["MATH_FILE"] = math_file
         res = common.run_tlc("JobTrace", "JobTrace.cfg", env=env)
         os.unlink(tf)
         for v in res.plain("VERDICT"):
